@@ -70,8 +70,9 @@ pub fn is_padding_word(w: u16) -> bool {
 #[derive(Clone, Copy, Debug, PartialEq, Eq)]
 pub enum Mand {
     Unknown,
-    Final(u8),
-    NonFinal(u8),
+    /// data length in bytes (a real receiver's table can only say 0..=255)
+    Final(usize),
+    NonFinal(usize),
 }
 
 /// Table of mandatory extensions (index = id & 0xFF).
@@ -158,7 +159,6 @@ pub fn walk_chain(pkt: &[u8], mut off: usize, first: u16, table: &MandTable) -> 
             match table.get(t) {
                 Mand::Unknown => return Err(Malformed::UnknownMandatory(t)),
                 Mand::Final(n) => {
-                    let n = n as usize;
                     if off + n > pkt.len() {
                         return Err(Malformed::ExtOverrun);
                     }
@@ -166,7 +166,6 @@ pub fn walk_chain(pkt: &[u8], mut off: usize, first: u16, table: &MandTable) -> 
                     return Ok((exts, t, off + n));
                 }
                 Mand::NonFinal(n) => {
-                    let n = n as usize;
                     if off + n + 2 > pkt.len() {
                         return Err(Malformed::ExtOverrun);
                     }
